@@ -484,7 +484,7 @@ async def _dump_db(context) -> dict:
     return out
 
 
-def run_spec(spec: dict, seed: int, workdir: str, timeout: float = 60.0, shuffle: bool = True) -> dict:
+def run_spec(spec: dict, seed: int, workdir: str, timeout: float = 60.0, shuffle: bool = True, settle: float = 0.4) -> dict:
     """one run of the spec on the real engine under the PRNG schedule `seed`"""
     os.makedirs(workdir, exist_ok=True)
     result: dict[str, Any] = {"seed": seed}
@@ -502,10 +502,33 @@ def run_spec(spec: dict, seed: int, workdir: str, timeout: float = 60.0, shuffle
         context = make_context(workdir)
         try:
             workflow, ports, node_steps = await build(context, spec, workdir)
-            executor = StreamFlowExecutor(workflow)
+            rec = {"cancel_called": False, "close_noop_with_unterminated": False}
+
+            class RecExecutor(StreamFlowExecutor):
+                """records which path the executor took (used to classify the known `_cancel` defect narrowly)"""
+
+                async def _cancel(self, tasks):
+                    rec["cancel_called"] = True
+                    await super()._cancel(tasks)
+
+                async def close(self):
+                    if self._closed and any(not st.terminated for st in self.workflow.steps.values()):
+                        rec["close_noop_with_unterminated"] = True
+                    await super().close()
+
+            executor = RecExecutor(workflow)
             me = asyncio.current_task()
-            run_task = asyncio.create_task(executor.run())
+            async def runner():
+                try:
+                    return await executor.run()
+                finally:
+                    # the very moment run() returns / raises: which steps are not terminated
+                    result["unterminated_at_exit"] = sorted(n for n, st in workflow.steps.items() if not st.terminated)
+
+            run_task = asyncio.create_task(runner())
             done, _ = await asyncio.wait({run_task}, timeout=timeout)
+            if not done:
+                result["unterminated_at_exit"] = sorted(n for n, st in workflow.steps.items() if not st.terminated)
             if not done:
                 result["outcome"] = {"kind": "hang", "detail": f"executor.run() did not finish in {timeout}s"}
             elif run_task.cancelled():
@@ -514,15 +537,20 @@ def run_spec(spec: dict, seed: int, workdir: str, timeout: float = 60.0, shuffle
                 result["outcome"] = {"kind": "raise", "detail": type(run_task.exception()).__name__}
             else:
                 ret = run_task.result()
-                result["outcome"] = {"kind": "return", "keys": sorted(ret)}
-            # let cancelled / finishing tasks settle
+                result["outcome"] = {"kind": "return", "keys": sorted(ret), "ret": {k: _jsonable(v) for k, v in ret.items()}}
+            result["executor"] = dict(rec, closed=bool(executor._closed))
+
+            # let finishing tasks settle (the last `_set_status` of a step is a database await served by a thread)
+            def workflow_tasks():
+                return [t for t in asyncio.all_tasks() if t is not me and not t.done() and t is not run_task
+                        and not _is_infrastructure(t)]
             for _ in range(30):
                 await asyncio.sleep(0)
-            await asyncio.sleep(0.01)
-            for _ in range(10):
-                await asyncio.sleep(0)
-            pend = [t for t in asyncio.all_tasks() if t is not me and not t.done() and t is not run_task]
-            result["pending"] = sorted(_task_label(t) for t in pend if not _is_infrastructure(t))
+            waited = 0.0
+            while workflow_tasks() and waited < settle:
+                await asyncio.sleep(0.01)
+                waited += 0.01
+            result["pending"] = sorted(_task_label(t) for t in workflow_tasks())
             result["steps"] = {name: {"status": Status(s.status).name, "terminated": bool(s.terminated)}
                                for name, s in sorted(workflow.steps.items())}
             result["node_steps"] = {str(k): v for k, v in node_steps.items()}
@@ -541,6 +569,10 @@ def run_spec(spec: dict, seed: int, workdir: str, timeout: float = 60.0, shuffle
                         idm[t.tag] = t.persistent_id
                 pmap[str(i)], term[str(i)], ids[str(i)] = m, tl, idm
             result["ports"], result["terminations"], result["token_ids"], result["duplicate_tags"] = pmap, term, ids, dup
+            result["data_after_termination"] = [
+                str(i) for i, port in enumerate(ports)
+                if any(isinstance(a, TerminationToken) and not isinstance(b, TerminationToken)
+                       for a, b in zip(port.token_list, port.token_list[1:]))]
             result["order"] = {str(i): [t.tag for t in port.token_list if not isinstance(t, TerminationToken)] for i, port in enumerate(ports)}
             result["port_ids"] = {str(i): port.persistent_id for i, port in enumerate(ports)}
             result["outputs"] = sorted(workflow.output_ports)
@@ -560,6 +592,16 @@ def run_spec(spec: dict, seed: int, workdir: str, timeout: float = 60.0, shuffle
     except Exception as e:  # noqa: BLE001
         result.setdefault("outcome", {"kind": "harness-error", "detail": f"{type(e).__name__}: {e}"})
     return result
+
+
+def _jsonable(v):
+    if isinstance(v, (int, str, float, bool)) or v is None:
+        return v
+    if isinstance(v, (list, tuple)):
+        return [_jsonable(x) for x in v]
+    if isinstance(v, dict):
+        return {str(k): _jsonable(x) for k, x in v.items()}
+    return repr(v)
 
 
 def _task_label(t: asyncio.Task) -> str:
